@@ -593,32 +593,95 @@ func genC14(o *hx.Out, tier string) {
 		nid = 12
 	}
 	for sc := 0; sc < nid; sc++ {
-		for _, udp := range []bool{false, true} {
+		for kind := 0; kind < 4; kind++ { // tcp server, udp server, tcp client, udp client
+			udp := kind%2 == 1
+			client := kind >= 2
 			dms := 400
 			addr := fmt.Sprintf("127.0.0.1:%d", base+16+sc%3)
-			var ep gomavlib.EndpointConf = gomavlib.EndpointTCPServer{Address: addr}
 			network := "tcp4"
 			if udp {
-				ep = gomavlib.EndpointUDPServer{Address: addr}
 				network = "udp4"
+			}
+			var ep gomavlib.EndpointConf
+			var ln net.Listener
+			var pc net.PacketConn
+			switch kind {
+			case 0:
+				ep = gomavlib.EndpointTCPServer{Address: addr}
+			case 1:
+				ep = gomavlib.EndpointUDPServer{Address: addr}
+			case 2:
+				l, err := net.Listen("tcp4", "127.0.0.1:0")
+				if err != nil {
+					continue
+				}
+				ln = l
+				ep = gomavlib.EndpointTCPClient{Address: l.Addr().String()}
+			case 3:
+				c, err := net.ListenPacket("udp4", "127.0.0.1:0")
+				if err != nil {
+					continue
+				}
+				pc = c
+				ep = gomavlib.EndpointUDPClient{Address: c.LocalAddr().String()}
+			}
+			closeListeners := func() {
+				if ln != nil {
+					ln.Close()
+				}
+				if pc != nil {
+					pc.Close()
+				}
 			}
 			node, err := gomavlib.NewNode(gomavlib.NodeConf{Endpoints: []gomavlib.EndpointConf{ep}, Dialect: d,
 				OutVersion: gomavlib.V2, OutSystemID: 10, HeartbeatDisable: true, IdleTimeout: time.Duration(dms) * time.Millisecond})
 			if err != nil {
+				closeListeners()
 				continue
 			}
 			col := scn.NewCollector(node, 0, false)
-			peer, err := net.Dial(network, addr)
-			if err != nil {
+			// the peer's side of the link: something to Write frames to
+			var peer io.WriteCloser
+			switch kind {
+			case 0, 1:
+				c, err := net.Dial(network, addr)
+				if err == nil {
+					peer = c
+				}
+			case 2:
+				ln.(*net.TCPListener).SetDeadline(time.Now().Add(5 * time.Second)) //nolint:errcheck
+				c, err := ln.Accept()
+				if err == nil {
+					peer = c
+				}
+			case 3:
+				// the node speaks first so that the peer learns its address
+				col.Wait(func() bool { return len(col.Channels()) > 0 })
+				node.WriteMessageAll(&minimal.MessageHeartbeat{MavlinkVersion: 3}) //nolint:errcheck
+				buf := make([]byte, 512)
+				pc.SetReadDeadline(time.Now().Add(5 * time.Second)) //nolint:errcheck
+				if _, from, err := pc.ReadFrom(buf); err == nil {
+					peer = packetPeer{pc, from}
+				}
+			}
+			if peer == nil {
 				node.Close()
+				closeListeners()
 				continue
 			}
 			// offsets in ms after the first frame: gaps below the time-out, some below half of it
 			offs := []int{0}
 			cur := 0
-			for i := 0; i < 2+r.Intn(4); i++ {
-				cur += []int{60, 100, 150, 320, 340}[r.Intn(5)]
-				offs = append(offs, cur)
+			if sc == 0 {
+				// a short gap, then a long one that crosses the deadline armed at the start: a deadline
+				// that is not armed afresh for every call expires here although frames keep coming
+				offs = []int{0, 150, 450, 500}
+				cur = 500
+			} else {
+				for i := 0; i < 2+r.Intn(4); i++ {
+					cur += []int{60, 100, 150, 320, 340}[r.Intn(5)]
+					offs = append(offs, cur)
+				}
 			}
 			t0 := time.Now()
 			var arr []string
@@ -645,7 +708,8 @@ func genC14(o *hx.Out, tier string) {
 			})
 			peer.Close()
 			scn.CloseWithin(node, 10*time.Second)
-			o.Add(fmt.Sprintf("idle expiry after bursts udp=%v", udp), impl, "idle", strconv.Itoa(dms), strings.Join(arr, " "))
+			closeListeners()
+			o.Add(fmt.Sprintf("idle expiry after bursts udp=%v client=%v", udp, client), impl, "idle", strconv.Itoa(dms), strings.Join(arr, " "))
 		}
 	}
 
@@ -828,3 +892,12 @@ func genC14(o *hx.Out, tier string) {
 		o.Add("udp server: a channel for every peer whatever its first datagram", verdict, "expect", "ok", "udp-server-first-datagrams")
 	}
 }
+
+// packetPeer writes datagrams to one address of a packet connection (the listener is closed by its owner).
+type packetPeer struct {
+	pc net.PacketConn
+	to net.Addr
+}
+
+func (p packetPeer) Write(b []byte) (int, error) { return p.pc.WriteTo(b, p.to) }
+func (p packetPeer) Close() error                { return nil }
